@@ -63,7 +63,15 @@ def build_file(spec):
 def read_all(data, spec):
     """iterate the real reader; -> (items, end) with end in {'stop', 'dataerror', 'exception:<repr>'}"""
     from cardutil import mciipm
-    f = io.BytesIO(data)
+    from vf import fileobjs
+    f, done = fileobjs.reader(spec.get('fobj', 'bytesio'), data)
+    try:
+        return _read_all(f, spec, mciipm)
+    finally:
+        done()
+
+
+def _read_all(f, spec, mciipm):
     if spec['kind'] == 'vbs':
         rd = mciipm.VbsReader(f, blocked=spec['blocked'])
     else:
@@ -147,6 +155,17 @@ def specs(tier, seed):
         add(kind='vbs', lens=[n], blocked=bool(n % 2), coding='cyc%d' % ((n * 37) % 256))
         if n % 16 == 0:
             add(kind='vbs', lens=[n, 300 - n + 1], blocked=not bool(n % 2), coding='cyc%d' % ((n * 11) % 256))
+    # the same cuts read from other kinds of file object: a non-seekable stream (pipe, stdin: tell()/seek() raise),
+    # an object that has nothing but read(), a real file
+    for lens in ([4], [1008], [1012], [2020], [1004, 4], [1012, 1012], [3, 2021, 1]):
+        for blocked in (False, True):
+            for fobj in ('pipe', 'minimal'):
+                add(kind='vbs', lens=lens, blocked=blocked, coding='pos', fobj=fobj)
+    add(kind='vbs', lens=[1008, 1012], blocked=True, coding='pos', fobj='file')
+    add(kind='vbs', lens=[5, 600], blocked=False, coding='pos', fobj='file')
+    for fobj in ('pipe', 'minimal', 'file'):
+        for blocked in (False, True):
+            add(kind='ipm', count=2, encoding='cp500', blocked=blocked, fobj=fobj)
     add(kind='vbs', lens=[1008, 1012], blocked=True, coding='pos', terminator=False)
     add(kind='vbs', lens=[5, 6], blocked=False, coding='pos', terminator=False)
     for enc in ('latin_1', 'cp500'):
@@ -174,7 +193,7 @@ def describe(tier, seed):
         'rule': '%d files (VBS, 1014-blocked VBS, IPM in latin_1/cp500; record lengths from a block-boundary alphabet: '
                 'singles, all pairs over %d lengths, triples, a 12-record 8+-block file; contents position-coded, '
                 'all-0x00, all-0x40, whitespace; every single record length 1..300 with content running through every '
-                'byte value; two files without terminator) x EVERY truncation offset 0..len(file). Expected '
+                'byte value; two files without terminator; 34 of the files also read from a non-seekable stream, from an object that only has read() and from a real file) x EVERY truncation offset 0..len(file). Expected '
                 'records = those whose prefix+data lie wholly inside the surviving payload (reference parser); the '
                 'reader must deliver exactly those and then stop or raise MciIpmDataError. A case = (file, offset); '
                 'non-trivial when the cut removes at least one byte.' % (len(sp), len(PAIR_AL)),
